@@ -6,9 +6,9 @@
    trunc <a> <b>                 -- Python int(a / b), b > 0
    ->  ok <n> <hash> [<elem> ...]      (elements printed when dump = 1 or n <= 48)
        err <ExceptionName>
-   With unique = 1 the 1-D lists are canonicalised (any zero -> 0, any NaN -> the quiet NaN) before
-   hashing/printing, because which of several equal-comparing patterns numpy.unique keeps is an
-   artefact of numpy's sort.  For product kinds the printed sequence is the flattened result
+   NaNs are always printed as the quiet NaN; with unique = 1 (or a NaN bound, where the inner
+   recursive calls sort NaNs) any zero is printed as 0: which of several equal-comparing patterns
+   numpy.unique keeps is an artefact of numpy's sort.  For product kinds the printed sequence is the flattened result
    (shape numbers first for the 2-D kinds). -/
 import FAVerif.Models.Samples
 open FAVerif.Samples
@@ -50,9 +50,12 @@ def parseSpecs : List String → Option (List Spec)
     pure (⟨s, a, b⟩ :: r)
   | _ => none
 
+def nanBound (c : Cfg) (s : Spec) : Bool :=
+  (match s.lo with | some b => isNaN c b | none => false) || (match s.hi with | some b => isNaN c b | none => false)
+
 def run1 (c : Cfg) (base : Params) (s : Spec) : Except Err (List Nat) :=
   (realSamples c { base with size := s.size, minValue := s.lo, maxValue := s.hi }).map fun l =>
-    if base.unique then l.map (canon c) else l
+    if base.unique || nanBound c s then l.map (canon c) else l.map fun b => if isNaN c b then c.qnan else b
 
 def flatGrid (g : List (List (Nat × Nat))) : List Nat :=
   [g.length, (g.headD []).length] ++ (g.flatMap fun row => row.flatMap fun xy => [xy.1, xy.2])
